@@ -23,7 +23,7 @@ _WEIGHTS = [("cartesian", 2), ("argcomb", 2), ("field", 2), ("withfield", 2), ("
 _OPS = [name for name, w in _WEIGHTS for _ in range(w)]
 
 
-_FOCUS_ONLY = {"withslot"}        # drawn only by the checks that name them (the other checks' chains stay what they were)
+_FOCUS_ONLY = {"withslot", "unzip"}        # drawn only by the checks that name them (the other checks' chains stay what they were)
 _KIND_OF = {"argsort": "sort", "rt_buffers": "rt", "rt_pickle": "rt", "rt_arrow": "rt", "rt_json": "rt", "rt_iter": "rt"}
 
 
@@ -282,6 +282,10 @@ def _call(ak, np, op, a, A):
         return ak.with_field(A, ak.Array(a["vals"]) if len(a["vals"]) else ak.Array(np.array([], dtype=np.int64)), a["new"])
     if op == "withfield":
         return ak.with_field(A, A[a["key"]], a["new"])
+    if op == "unzip":
+        # unzip(zip(fields)) returns the original fields (both fields are x itself: equal structure)
+        fa, fb = ak.unzip(ak.zip({"a": A, "b": A}))
+        return [ak.to_list(fa), ak.to_list(fb)]
     if op == "withslot":
         # overwrite an EXISTING slot of a tuple: 3-tuples (x, x, x) per element, slot `slot` := vals[i]
         Z = ak.zip((A, A, A), depth_limit=1)
